@@ -259,6 +259,17 @@ func buildOne(r *rng.R, slot int) *sharedObj {
 		return &sharedObj{special: "refused-text", kind: "text", text: texts[r.Intn(len(texts))]}
 	case 15:
 		return &sharedObj{special: "refused-calls", kind: "refused", item: ast.NewListNode("item", ast.NewUintNode(1, "b"))}
+	case 17, 18:
+		// long float arrays (an encoder that farms out chunks of a long array must give every caller its own chunks back)
+		n, size := 20000, 4
+		if slot == 18 {
+			n, size = 17000, 8
+		}
+		vals := make([]interface{}, n)
+		for i := range vals {
+			vals[i] = float64(i)*0.5 + float64(slot)
+		}
+		return &sharedObj{special: fmt.Sprintf("floats-f%d", size), kind: "item", item: ast.NewFloatNode(size, vals...), fill: map[string]interface{}{}, counts: map[string]interface{}{}}
 	case 16:
 		// a long-running parse: a big SML text
 		var sb strings.Builder
@@ -486,7 +497,7 @@ func raceCanary() {
 }
 
 func runC17(c *ctx) {
-	c.Rule = "race-detector build of a multi-goroutine driver: a pool of 200 shared objects (templates with variables and ellipses, messages, control messages, encoded byte strings, SML texts, shared fill maps) whose sequential reference results are computed afterwards on independently constructed twins (nothing is asked of a shared object before the concurrent phase, so lazily initialised state is first touched under concurrency); 32 (thorough 64) goroutines hammer a few hot objects per round with String, ToBytes, Variables, Size, Header, SystemBytes, FillVariables (shared read-only map and private maps), ellipsis expansion, SetWaitBit, SetSessionIDAndSystemBytes, Type, response constructors, hsms.Parse of shared buffers (one nested 600 lists deep that all goroutines decode at the same moment, one with 3600 items) and sml.Parse (incl. a 60-row text), a set of 13 constructor/fill calls and 7 texts that must be refused alone and in company, with Gosched jitter, and every 32nd operation builds, prints, expands, parses and fills an object whose variable names the process has never seen (checked against the model); 4 (thorough 15) rounds with different seeds. Oracle: no WARNING: DATA RACE block in the race log whose stacks include a frame of the library, and every call returns what the same call returned in the sequential pre-pass; a deliberately racy canary must be reported or the run is inconclusive. non-trivial = a call that started while another goroutine's call on the same object was in flight; distinct by (operation, object, round)"
+	c.Rule = "race-detector build of a multi-goroutine driver: a pool of 200 shared objects (templates with variables and ellipses, messages, control messages, encoded byte strings, SML texts, shared fill maps) whose sequential reference results are computed afterwards on independently constructed twins (nothing is asked of a shared object before the concurrent phase, so lazily initialised state is first touched under concurrency); 32 (thorough 64) goroutines hammer a few hot objects per round with String, ToBytes, Variables, Size, Header, SystemBytes, FillVariables (shared read-only map and private maps), ellipsis expansion, SetWaitBit, SetSessionIDAndSystemBytes, Type, response constructors, hsms.Parse of shared buffers (one nested 600 lists deep that all goroutines decode at the same moment, one with 3600 items) and sml.Parse (incl. a 60-row text), a set of 13 constructor/fill calls and 7 texts that must be refused alone and in company, with Gosched jitter; every round starts with barrages (the big list, the deep nest, two long float arrays, then a walk over the whole pool in the same order by everybody, so that first touches coincide) and the hot set always holds templates with shared count and fill maps and complete messages; every 32nd operation builds, prints, expands, parses and fills an object whose variable names the process has never seen (checked against the model); 4 (thorough 15) rounds with different seeds. Oracle: no WARNING: DATA RACE block in the race log whose stacks include a frame of the library, and every call returns what the same call returned in the sequential pre-pass; a deliberately racy canary must be reported or the run is inconclusive. non-trivial = a call that started while another goroutine's call on the same object was in flight; distinct by (operation, object, round)"
 	c.Assume = []string{"the race detector judges the executions that happened, not all interleavings", "GORACE log_path is set by bin/check"}
 
 	logPrefix := ""
@@ -517,7 +528,7 @@ func runC17(c *ctx) {
 		}
 		// the hand-made objects are hot in every round (long-running calls, calls that must be refused, deep nests)
 		var big, deep *sharedObj
-		var long []*sharedObj
+		var long, floats []*sharedObj
 		for _, o := range pool {
 			switch o.special {
 			case "":
@@ -527,7 +538,10 @@ func runC17(c *ctx) {
 			case "deep-bytes":
 				deep = o // and every goroutine decodes the deep nest several times right after
 			}
-			if strings.HasPrefix(o.special, "long-") || o.special == "deep-bytes" || o.special == "big-list" {
+			if strings.HasPrefix(o.special, "floats-") {
+				floats = append(floats, o)
+			}
+			if strings.HasPrefix(o.special, "long-") || o.special == "deep-bytes" || o.special == "big-list" || strings.HasPrefix(o.special, "floats-") {
 				long = append(long, o) // expensive calls: each goroutine makes one now and then, so that a few are always in flight
 				continue
 			}
@@ -539,9 +553,41 @@ func runC17(c *ctx) {
 				hot = append(hot, o)
 			}
 		}
-		if big == nil || deep == nil {
+		if big == nil || deep == nil || len(floats) != 2 {
 			c.Inconclusive("the hand-made shared objects were not built")
 			return
+		}
+		// the hot set always holds templates whose shared count map names an ellipsis, templates with a shared fill map,
+		// and complete messages (two of each where the pool has them)
+		need := map[string]int{"expand": 2, "fill": 2, "message": 2}
+		isHot := func(o *sharedObj) bool {
+			for _, h := range hot {
+				if h == o {
+					return true
+				}
+			}
+			return false
+		}
+		for _, o := range pool {
+			if o.special != "" {
+				continue
+			}
+			want := ""
+			switch {
+			case o.kind == "item" && len(o.counts) > 0:
+				want = "expand"
+			case (o.kind == "item" || o.kind == "data") && len(o.fill) > 0:
+				want = "fill"
+			case o.kind == "data" && len(o.fill) == 0:
+				want = "message"
+			}
+			if want == "" || need[want] == 0 {
+				continue
+			}
+			need[want]--
+			if !isHot(o) {
+				hot = append(hot, o)
+			}
 		}
 		// The hot loop shares nothing between goroutines except the objects under test: no mutex, no atomic, no
 		// channel. Any synchronisation of the monitor itself would order the goroutines' accesses (happens-before)
@@ -589,6 +635,32 @@ func runC17(c *ctx) {
 					} else if got != first && len(lc.varies) < 3 {
 						lc.varies = append(lc.varies, fmt.Sprintf("bytes.hsms.Parse of the deep nest returned %q and %q", clipS(first), clipS(got)))
 					}
+				}
+				note := func(o *sharedObj, oi int, got string, t0 int64) {
+					lc.calls = append(lc.calls, call{int32(objIndex[o]), t0, int64(time.Since(t00))})
+					key := [2]int{objIndex[o], oi}
+					if first, seen := lc.first[key]; !seen {
+						lc.first[key] = got
+					} else if got != first && len(lc.varies) < 3 {
+						lc.varies = append(lc.varies, fmt.Sprintf("%s.%s returned %q and %q", o.kind, c17Ops[o.kind][oi], clipS(first), clipS(got)))
+					}
+				}
+				// both long float arrays, alternately, by everybody at once
+				for rep := 0; rep < 6; rep++ {
+					o := floats[(rep+gID)%2]
+					t0 := int64(time.Since(t00))
+					note(o, 1, doOp(o, "ToBytes", ""), t0)
+				}
+				// first touch: every goroutine walks the whole pool in the same order, so that the first calls an object
+				// ever sees arrive together (lazily initialised state, once-only work, not-yet-encoded messages)
+				for idx, o := range pool {
+					if o.special != "" && o.special != "refused-calls" && o.special != "refused-text" {
+						continue
+					}
+					ops := c17Ops[o.kind]
+					oi := (gID + idx) % len(ops)
+					t0 := int64(time.Since(t00))
+					note(o, oi, doOp(o, ops[oi], fmt.Sprintf("w%dg%df%d", round, gID, idx)), t0)
 				}
 				for k := 0; k < opsPer; k++ {
 					var o *sharedObj
